@@ -99,7 +99,7 @@ def parse_rust_bytes(dbg):
     return out
 
 
-def run(ctx):
+def _run_rules(ctx):
     rep, f = ctx.rep, ctx.facts
     rep.trust('serde derive emits symmetric visitor code for the keys it is given; serde_json prints finite f64 with ryu '
               '(shortest round-trip); serde_json\'s reader is correctly rounded exactly when it is compiled with its '
@@ -495,3 +495,161 @@ def _svg_placements(ctx):
                   'the SVG of %s does not place the shape at the state\'s Cartesian transforms and their nearest images: %s '
                   '(isometry calls %d, image loops %d)' % (adt, bad[:3], n_iso, n_img))
     rep.floor('R4', 'state SVG impls', k, 2)
+
+
+def run(ctx):
+    _run_rules(ctx)
+    from .common import import_obligations
+    # what is drawn and written is the final state, to the .svg / .json paths (C10.R3)
+    import_obligations(ctx, 'C10', 'R6', only_rules={'R3'}, floor=4)
+    _glyphs(ctx)
+    conversion_is_the_matrix(ctx, 'R7')
+    _corners(ctx)
+
+
+def _xy_of(tr, op):
+    """('x' | 'y' | None, base description) for an operand that reads a coordinate of a point / vector."""
+    if 'l' not in op:
+        return None, None
+    o = tr.origin(op)
+    fp = field_path(o.get('p', []))
+    if not fp or fp[-1] not in ('x', 'y'):
+        return None, None
+    if o['o'] == 'call' and o['term']['args'] and 'l' in o['term']['args'][0]:
+        # `p.x` of a nalgebra point / vector goes through Deref to the coordinate view: the base is what was dereferenced
+        bo = tr.origin(o['term']['args'][0])
+        if bo['o'] == 'call' and call_matches(bo['term'], 'Index<I>>::index', 'ops::Index::index') and len(bo['term']['args']) == 2:
+            # `v[i].x` and `v[i].y` index twice: the same element if container and (constant) index agree
+            co = tr.origin(bo['term']['args'][0])
+            io = tr.origin(bo['term']['args'][1]) if 'l' in bo['term']['args'][1] else {'o': 'const', 'c': bo['term']['args'][1]}
+            iv = const_value(io['c']) if io['o'] == 'const' else ('bb', io.get('bb'), io.get('l'))
+            base = ('index', co['o'], co.get('l'), co.get('bb'), tuple(field_path(co.get('p', []))), iv, tuple(fp[:-1]))
+        else:
+            base = (bo['o'], bo.get('l'), bo.get('bb'), tuple(field_path(bo.get('p', []))), tuple(fp[:-1]))
+    else:
+        base = (o['o'], o.get('l'), o.get('bb'), tuple(fp[:-1]), ())
+    return fp[-1], base
+
+
+def _glyphs(ctx):
+    """R7: the glyphs are drawn where the data says: an attribute named for an x (y) coordinate gets an x (y) coordinate, and the
+    two components of every point handed to a path are the x and the y of ONE point, in that order."""
+    rep, f = ctx.rep, ctx.facts
+    XA = {'cx': 'x', 'x': 'x', 'x1': 'x', 'x2': 'x', 'cy': 'y', 'y': 'y', 'y1': 'y', 'y2': 'y'}
+    n_attr = n_pts = 0
+    for b in f.bodies.values():
+        if b.is_closure or b.fn_name != 'as_svg' or 'ToSVG' not in (b.impl_trait or ''):
+            continue
+        tr = Tracer(b)
+        short = f.norm(b.impl_self_adt or '').split('::')[-1]
+        for bi, t in b.calls():
+            nm = callee_name(t) or ''
+            if nm.endswith('::set') and len(t['args']) == 3:
+                ko = tr.origin(t['args'][1]) if 'l' in t['args'][1] else {'o': 'const', 'c': t['args'][1]}
+                key = (ko.get('c') or {}).get('str') if ko['o'] == 'const' else None
+                if key in XA:
+                    n_attr += 1
+                    got, _base = _xy_of(tr, t['args'][2])
+                    rep.check(got == XA[key], 'R7', 'glyph-attribute:%s.%s' % (short, key), where(b, bi),
+                              '%s <- a .%s coordinate' % (key, XA[key]),
+                              'the SVG attribute `%s` of %s is set from %s: the glyph is not drawn where the shape\'s data puts it'
+                              % (key, short, ('a .%s coordinate' % got) if got else 'something that is not a coordinate'))
+            elif nm.endswith(('::move_to', '::line_to', '::line_by')) and len(t['args']) == 2 and 'l' in t['args'][1]:
+                o = tr.origin(t['args'][1])
+                if o['o'] == 'rvalue' and o['rv'].get('agg') == 'tuple' and len(o['rv']['ops']) == 2:
+                    n_pts += 1
+                    (c0, b0), (c1, b1) = _xy_of(tr, o['rv']['ops'][0]), _xy_of(tr, o['rv']['ops'][1])
+                    rep.check(c0 == 'x' and c1 == 'y' and b0 == b1, 'R7', 'path-point:%s#%d' % (short, n_pts), where(b, bi),
+                              '(p.x, p.y) of one point', 'a path of %s gets the point (%s, %s)%s: not the (x, y) of one point'
+                              % (short, c0, c1, '' if b0 == b1 else ' of two different points'))
+    rep.floor('R7', 'coordinate attributes of glyphs', n_attr, 4)
+    rep.floor('R7', 'points handed to SVG paths', n_pts, 8)
+
+
+def conversion_is_the_matrix(ctx, rule):
+    """`Transform2 -> Matrix3` hands out the stored matrix itself (the SVG `matrix(..)` and every reader of a parsed operation go
+    through it): not its transpose, inverse or a re-composition."""
+    from ..sym import SYM, SymEx
+    rep, f = ctx.rep, ctx.facts
+    bs = [b for b in f.bodies.values() if not b.is_closure and b.fn_name in ('into', 'from') and
+          f.norm(b.impl_self_adt or '') in ('transform::Transform2', 'nalgebra::Matrix', 'nalgebra::base::Matrix') and
+          'Matrix' in (b.local_ty(0) or '') and 'Transform2' in (b.local_ty(1) if b.arg_count >= 1 else '')]
+    if not rep.check(len(bs) >= 1, rule, 'anchor:Transform2-to-Matrix3', 'transform::Transform2', 'found',
+                     'the conversion of a Transform2 into a Matrix3 was not found', 'anchor-lost'):
+        return
+    for b in bs:
+        sx = SymEx(f)
+        try:
+            outs = sx.run(b, [SYM('self')])
+        except Exception:      # noqa: BLE001
+            outs = []
+        ok = len(outs) == 1 and not sx.aborted
+        why = 'not a single loop-free path'
+        if ok:
+            r = sx.deep(outs[0].st, outs[0].ret)
+            # element-wise: result[i][j] is the stored matrix's [i][j]
+            want = [[sx.mat_elem(outs[0].st, SYM('self'), i, j) for j in range(3)] for i in range(3)]
+            got = [[sx.mat_elem(outs[0].st, r, i, j) for j in range(3)] for i in range(3)]
+            ok = got == want
+            why = 'result[0][1] = %s' % (repr(got[0][1])[:80],)
+        rep.check(ok, rule, 'conversion-is-the-matrix:%s' % b.fn_name, where(b), 'returns the stored matrix element for element',
+                  'the conversion of a Transform2 into a Matrix3 does not return the stored matrix (%s)' % why)
+
+
+def _corners(ctx):
+    """R7: the cell outline: get_corners yields the images of the four corners of the unit square centred on the origin under the
+    cell's own lattice map, in cyclic order (neighbours differ in exactly one fractional coordinate).  By value: however the
+    list is produced (literal, constant table, fill loop), each returned point equals to_cartesian(+-1/2, +-1/2)."""
+    from ..sym import SYM, SymEx, sfield
+    from ..terms import NotNumeric
+    from .C14 import lattice, _tc
+    rep, f = ctx.rep, ctx.facts
+    b = f.one(self_adt='cell::Cell2', name='get_corners')
+    if not rep.check(b is not None, 'R7', 'anchor:get_corners', 'cell::Cell2', 'found', 'Cell2::get_corners not found', 'anchor-lost'):
+        return
+    lat = lattice(f)
+    if lat is None or lat.get('error'):
+        rep.note('R7: the lattice map could not be lifted (%s); the cell outline is not compared' % ((lat or {}).get('error'),))
+        return
+    n = lat['n']
+    sx = SymEx(f)
+    try:
+        outs = sx.run(b, [SYM('self')])
+    except Exception:      # noqa: BLE001
+        outs = []
+    # (paths that differ only in whether a log line is written return the same list)
+    rets = {repr(sx.deep(o.st, o.ret)) for o in outs}
+    if not outs or len(rets) != 1 or sx.aborted:
+        rep.fail('R7', 'cell-outline-corners', where(b), 'get_corners could not be evaluated to one list of points', 'undecidable-shape')
+        return
+    items = sx.as_seq(outs[0].st, outs[0].ret)
+    pts = []
+    try:
+        for it in items or []:
+            it = sx.deep(outs[0].st, it)
+            pts.append((n.rf(sfield(it, 'x')), n.rf(sfield(it, 'y'))))
+    except (NotNumeric, TypeError, AttributeError):
+        pts = None
+    if not pts or len(pts) != 4:
+        rep.fail('R7', 'cell-outline-corners', where(b), 'get_corners does not return four points that can be compared by value',
+                 'undecidable-shape')
+        return
+    half = n.const(1) * n.rf(('num', __import__('fractions').Fraction(1, 2)))
+    sq = [(-1, -1), (-1, 1), (1, 1), (1, -1)]
+    orders = []
+    for start in range(4):
+        for step in (1, -1):
+            orders.append([sq[(start + step * k) % 4] for k in range(4)])
+    ok = False
+    for order in orders:
+        good = True
+        for (gx, gy), (sxn, syn) in zip(pts, order):
+            ex, ey = _tc(lat, n, half * n.const(sxn), half * n.const(syn))
+            if not (gx.equals(ex) and gy.equals(ey)):
+                good = False
+                break
+        if good:
+            ok = True
+            break
+    rep.check(ok, 'R7', 'cell-outline-corners', where(b), 'the four corners to_cartesian(+-1/2, +-1/2) in cyclic order',
+              'the cell outline is not the image of the unit square under the cell\'s lattice map, corner by corner in cyclic order')
